@@ -787,7 +787,7 @@ MUTANTS = [
     ("par_stops_after_failure", _R, _PAR_HANDLER + "\n                else:", _PAR_HANDLER + "\n                            break\n                else:"),
     ("par_result_dropped", _R, "                    yield lint_result\n        except KeyboardInterrupt:",
      "                    if not fix:\n                        yield lint_result\n        except KeyboardInterrupt:"),
-    ("reraise_other_exception", _R, "        raise self.ee.with_traceback(self.tb)", "        raise KeyboardInterrupt()"),
+    ("reraise_loses_exception", _R, "        raise self.ee.with_traceback(self.tb)", "        raise RuntimeError(\"worker failed\")"),
 ]
 
 
